@@ -47,6 +47,7 @@ static struct rec LOGGED[64]; static int nlogged;
 static const char *prio_names[] = { "emerg", "alert", "crit", "error", "warning", "notice", "info", "debug", "trace" };
 static char dir[128], dumpf[160], dmgf[160];
 
+static int cur_line_len;
 static int bb_line_len;      /* > 0: the blackbox target is configured for longer lines than the default */
 static void bb_start(int size)
 {
@@ -93,12 +94,14 @@ static void bb_log(int kind)
 		snprintf(r->msg, sizeof r->msg, "r%d %s", n, big);
 		qb_log_from_external_source(r->fn, "bb.c", "r%d %s", (uint8_t)r->prio, r->line, r->tags, n, big);
 		break;
-	case 5: case 6: {
+	case 5: case 6: case 7: {
 		/* longer than the default line length, inside the configured one (long-lines mode only) */
 		static char huge[2000];
-		size_t l = kind == 5 ? 1500 : 700;
+		size_t l = kind == 5 ? 1500 : kind == 6 ? 700 : 100;
 		memset(huge, 'M', l); huge[l] = 0;
 		snprintf(r->msg, sizeof r->msg, "r%d %s", n, huge);
+		if (cur_line_len && strlen(r->msg) + 8 >= (size_t)cur_line_len)      /* does not fit the configured line: the notice is stored instead */
+			snprintf(r->msg, sizeof r->msg, "Log message too long to be stored in the blackbox.  Maximum is QB_LOG_MAX_LEN");
 		qb_log_from_external_source(r->fn, "bb.c", "r%d %s", (uint8_t)r->prio, r->line, r->tags, n, huge);
 		break; }
 	default:
@@ -397,15 +400,15 @@ static void run_roundtrip(void)
 static void run_longlines(void)
 {
 	static const int sizes[] = { 4096, 8192 };
-	static const int kinds[] = { 0, 5, 6 };
+	static const int kinds[] = { 0, 5, 6, 7 };
 	int size = sizes[vp_choose(2, "blackbox size")], step;
-	bb_line_len = 2048;
+	bb_line_len = cur_line_len = vp_choose(2, "line length") ? 32 : 2048;      /* longer and much shorter than the default */
 	bb_start(size);
 	bb_line_len = 0;
-	vp_log("blackbox of %d bytes, line length 2048", size);
-	{ int i, n = vp_choose(2, "records logged before") * 6; for (i = 0; i < n; i++) bb_log(6); }
+	vp_log("blackbox of %d bytes, line length %d", size, cur_line_len);
+	{ int i, n = vp_choose(2, "records logged before") * (cur_line_len == 32 ? 40 : 6); for (i = 0; i < n; i++) bb_log(6); }      /* enough to fill the ring */
 	for (step = 0; step < depth; step++) {
-		int kind = kinds[vp_choose(3, "record kind")];
+		int kind = kinds[vp_choose(4, "record kind")];
 		bb_log(kind);
 		vp_log("log record #%d kind %d (%zu chars)", nlogged - 1, kind, strlen(LOGGED[nlogged - 1].msg));
 		unlink(dumpf);
